@@ -20,42 +20,42 @@ CLAIMS = {
    text=('Every simulated execution records a history of proposals and ReadIndex reads issued on any replica (leader, followers, non-voting) under loss, delay, '
          'reordering, partitions (symmetric, one-way, leader isolation), leader transfers, crashes at step-internal points and restarts - never duplication; '
          'the history is decided exactly against the final per-key lists (unique ids make it unambiguous). Held on the executions explored, not for all schedules.'),
-   note=E1_NOTE + '; second stage (E2 chaos): the same oracle over histories recorded at the public NodeHost API (SyncPropose, Propose+wait, SyncRead, ReadIndex+ReadLocalNode on every replica incl. a non-voting one) of real NodeHosts under a fault script, built with the race detector. ' + E2_NOTE),
+   note=E1_NOTE + '; second stage (E2 chaos): the same oracle over histories recorded at the public NodeHost API (SyncPropose, Propose+wait, SyncRead, ReadIndex+ReadLocalNode on every replica incl. a non-voting one) of real NodeHosts under a fault script, built with the race detector; third stage (E2 readstorm): a slowly applying follower under a storm of linearizable reads (several per tick, many in flight) while writers complete through the leader, same oracle. ' + E2_NOTE),
  'C02': dict(engine='raftsim+clusterrun', category='exploration', design='DESIGN.md section 4 C02',
    technique='runtime monitoring: online invariant monitors with a global view over a deterministic hostile simulation of real raft peers (apply streams, durable logs, commit map, state hashes)',
    text=('After every simulator step: per-replica apply stream gap-free and increasing, first applier fixes (term,type,payload) per index and every later applier must match, '
          'no committed entry overwritten or truncated in any durable log, a leader only advances commit by counting entries of its own term, pairwise log matching, '
          'equal user/session/membership hashes at equal applied index, final lists prefix-consistent. Message loss, duplication, delay, reordering, crashes and restarts included. '
-         'E2 learner stage: power loss of a single-voter leader between sending Replicate and persisting, with a non-voting replica listening; both replicas must still agree index by index.'),
+         'E2 learner stage: power loss of a single-voter leader between sending Replicate and persisting, with a non-voting replica listening; both replicas must still agree index by index. One E1 case in eight keeps the raft state of every replica in a real sharded Pebble store that is reopened at every restart: the recovered log must be the log that was saved.'),
    note=E1_NOTE + '. ' + E2_NOTE),
  'C03': dict(engine='raftsim', category='exploration', design='DESIGN.md section 4 C03',
    technique='runtime monitoring: term->leader map, durable and sent votes per (replica, term), vote-quorum and leader-completeness checks at every LeaderUpdated event of the simulation',
    text=('Every LeaderUpdated event of every replica feeds a single-valued term->leader map; every persisted vote, granted RequestVoteResp and RequestVote feeds a single-valued '
          '(replica, term)->candidate map that survives restarts; a new leader must have received granted votes from a quorum of its voting members and must hold every entry committed so far; no replica campaigns while a committed membership change is not yet applied by it. '
-         'Matrix PreVote x CheckQuorum x sizes 1-5 x non-voting/witness joins x membership changes x transfers x crash points.'),
+         'With a real log store under the replicas (one case in eight) the hard state recovered at a restart must carry the term and the vote that were saved. Matrix PreVote x CheckQuorum x sizes 1-5 x non-voting/witness joins x membership changes x transfers x crash points.'),
    note=E1_NOTE),
- 'C06': dict(engine='raftsim', category='exploration', design='DESIGN.md section 4 C06',
+ 'C06': dict(engine='raftsim+clusterrun', category='exploration', design='DESIGN.md section 4 C06',
    technique='runtime monitoring: global-view monitor comparing every released read index with the maximum commit index of any replica at request time, plus leadership-confirmation accounting per read context',
    text=('For every ReadIndex context: the index released to the requester is >= the highest commit index any replica had when the request was issued; the answering replica was the leader of the term stamped on the answer, '
          'had committed in that term, and a quorum of its voting members handled one of its heartbeats and had a response handled by it after the request arrived. Local, forwarded and batched requests, deposed leaders, partitions, heartbeat loss/duplication/reordering, membership changes.'),
-   note=E1_NOTE + '; duplication of ReadIndex *request* messages is excluded (see DESIGN.md observations); the clause "released only after local applied index reached the index" is enforced by the mini-node itself in E1 and is covered for the real request.go path by C01 histories'),
+   note=E1_NOTE + '; duplication of ReadIndex *request* messages is excluded (see DESIGN.md observations); the clause "released only after local applied index reached the index" is enforced by the mini-node itself in E1; the real request.go / node.go path (batching of read requests, contexts, release at the local applied index) is the E2 readstorm stage: a slowly applying follower under a storm of linearizable reads while writers complete through the leader, decided by the exact history oracle. ' + E2_NOTE),
  'C07': dict(engine='rsmcheck+raftsim', category='exploration', design='DESIGN.md section 4 C07',
    technique='runtime monitoring: differential check of the real rsm.StateMachine membership handling against a reference of the stated rules (E5), plus cross-replica outcome/membership monitors in the simulation (E1)',
    text=('E5: random config-change streams (valid, invalid, ordered/unordered) through the real rsm.StateMachine, every accept/reject and resulting membership compared with a reference written from the statement, also across snapshot cuts. '
          'E1: per config-change index all replicas must report the same outcome and membership hash; the raft core member sets equal the applied membership; no campaign with a committed, unapplied membership change; C02/C03 monitors stay armed under concurrent changes and leader failure.'),
    note=E1_NOTE),
 
- 'C04': dict(engine='clusterrun+storecheck', category='fault_enumeration', design='DESIGN.md section 4 C04',
+ 'C04': dict(engine='clusterrun+storecheck+raftsim', category='fault_enumeration', design='DESIGN.md section 4 C04',
    technique='runtime monitoring with fault injection: durable shadow of every successful SaveRaftState checked against every outgoing vote / vote request / replication ack / heartbeat response in the step worker (hook), power-loss crashes at step-worker points and arbitrary moments with recovery comparison, full power loss with final reads',
    text=('M1: every RequestVote, granted RequestVoteResp, accepting ReplicateResp and HeartbeatResp is checked, in the goroutine that sends it, against the durable shadow (term, vote, entries) of its replica. '
          'M2: hosts lose power (unsynced data dropped) just before / just after SaveRaftState or at arbitrary moments; the reopened log store must dominate the shadow frozen at the crash instant. '
          'M3: after a power loss of all hosts every proposal reported Completed must be in the final lists. Pebble and Tan. Crash sites are enumerated by kind, crash instants within a site are sampled. '
-         'Store half (E3 crash-tan / crash-pebble-plain stages): power loss at every mutating file-system operation of deterministic SaveRaftState workloads; every acknowledged hard state (term, vote, commit), entry and snapshot record must be readable after reopen.'),
+         'Store half (E3 crash-tan / crash-pebble-plain stages): power loss at every mutating file-system operation of deterministic SaveRaftState workloads; every acknowledged hard state (term, vote, commit), entry and snapshot record must be readable after reopen. Simulator half (E1 stage): every vote request, vote grant, replication acknowledgement and heartbeat response is checked against the durable store of its sender when it leaves; with a real log store under the replicas the state and log recovered at a restart must be what was saved.'),
    note=E2_NOTE),
  'C05': dict(engine='rsmcheck+clusterrun', category='exploration', design='DESIGN.md section 4 C05',
    technique='runtime monitoring: differential check of the real rsm.StateMachine session handling against a reference session/LRU model over random register/propose/retry/acknowledge/unregister streams, with a snapshot twin at every index',
    text=('10k streams per quick run (more clients than the LRU limit): for every entry the model predicts whether the user state machine is called, the result, rejected and ignored flags; '
-         'at every index a twin is recovered from a snapshot and must behave identically for the rest of the stream (session hash included).'),
+         'at every index a twin is recovered from a snapshot and must behave identically for the rest of the stream (session hash included); half of the twins are live lagging replicas that hold the sessions of a prefix and install the snapshot; the same streams also run through a concurrent state machine (batched apply path) with PRNG task boundaries.'),
    note='E5 is single replica, single-threaded: leader changes and restarts appear as duplicate placements and snapshot cuts. E2 sessions stage: clients with registered sessions retry timed-out proposals with the same series id through any host across leader changes, snapshots, crashes and restarts; unique payload ids make a second application, a wrong cached result or a lost acknowledged write visible in the final lists. ' + E2_NOTE),
  'C08': dict(engine='rsmcheck+clusterrun', category='exploration', design='DESIGN.md section 4 C08',
    technique='runtime monitoring: twin replicas (full replay vs snapshot + suffix) over the real snapshotter and state machine adapters at every cut index; online assertion in the log store wrapper that compaction never passes a recoverable snapshot',
@@ -76,39 +76,39 @@ CLAIMS = {
    technique='runtime monitoring: instrumented user state machines of all three kinds check the call contract online (interval monitor under its own mutex); the Go race detector is a second oracle through a deliberately unsynchronised field',
    text=('Three shards (regular, concurrent, on-disk) under proposals, stale / linearizable / delayed local reads, periodic and requested snapshots, a lagging follower, StopShard / StopReplica / restart and NodeHost close under load: '
          'Update indexes strictly increase per incarnation, no forbidden overlap among Update/Sync/PrepareSnapshot/RecoverFromSnapshot/Close (+ Lookup/SaveSnapshot for the plain SM), nothing after Close, on-disk SM never handed an index at or below Open. '
-         'Catch-up cases add streamed and file snapshots to lagging replicas during continuous writes, periodic Sync, requested and exported snapshots on every replica, with PrepareSnapshot and Sync dwelling 0-2 ms.'),
+         'Catch-up cases add streamed and file snapshots to lagging replicas during continuous writes, periodic Sync, requested and exported snapshots on every replica, with PrepareSnapshot and Sync dwelling 1-4 ms; snapshots are requested right before stops and closes; restarts with Config.WaitReady race with a stop of the same replica during a dwelling RecoverFromSnapshot.'),
    note=E2_NOTE + '; race reports are attributed to C11 only if a frame of the instrumented state machine is on a stack'),
  'C12': dict(engine='clusterrun', category='exploration', design='DESIGN.md section 4 C12',
    technique='runtime monitoring: a watcher per accepted request drains its result channel until quiescence; unique payload ids tie results to requests; apply stamps of the instrumented state machine give applied-before-completed; race reports with request.go frames are attributed',
    text=('Every accepted Propose / ReadIndex / config change / RequestSnapshot / QueryRaftLog is followed to quiescence (after StopShard / NodeHost.Close returned): exactly one terminal result, at most one commit notification before it, '
-         'Completed carries the requester own id and follows the local apply, Dropped/Rejected proposals are never applied. Short timeouts, immediate Release and reuse, NotifyCommit on/off, leader isolation, stops and closes under load, delays at the hand-over windows.'),
+         'Completed carries the requester own id and follows the local apply, Dropped/Rejected proposals are never applied. Short timeouts, immediate Release and reuse, NotifyCommit on/off, leader isolation, stops and closes under load, delays at the hand-over windows. Synchronous clients whose context expires near the running completion latency, or is cancelled from inside Update when their own entry is applied, must get the result of their own payload. In every E2 workload a client waits for a result only until its replica has processed 4x the deadline in ticks (+200): a request that is never answered is reported, not waited for.'),
    note=E2_NOTE + '; promptness of expiry is recorded, not decided (no logical tick is observable at the API)'),
 
  'C14': dict(engine='snapcheck', category='exploration', design='DESIGN.md section 4 C14',
    technique='runtime monitoring of the real snapshot writer / reader / validator on generated payloads around the block boundaries, with exhaustive bit flips of header, block checksums and tail and sampled payload flips, truncations and extensions of chunk streams',
    text=('Random payload lengths around the 2 MB block size and its multiples, random write and read segmentations, both compression settings, both format versions on the read side (the writers get a private copy of the payload so that a writer scribbling over its input cannot agree with itself): bytes read back are identical, recorded size and checksum match the file, shrunk files reload as empty payload. '
-         'Every flipped bit either fails the load or yields the original bytes; the stream validator accepts exactly what the writer produces for any chunking and rejects every truncation, extension and covered flip.'),
+         'Every flipped bit either fails the load or yields the original bytes; the stream validator accepts exactly what the writer produces for any chunking and rejects every truncation, extension and covered flip; the receiver side (real transport.Chunk fed with corrupted / truncated chunk scripts, with and without external files) never finalizes such a stream.'),
    note='the header checksum slot of files written by SnapshotWriter is zero by design (the reader skips the check): flips there are counted, not judged; input space sampled around the boundaries'),
  'C15': dict(engine='snapcheck', category='exploration', design='DESIGN.md section 4 C15',
    technique='runtime monitoring: the real sender-side splitter and receiver (transport.Chunk) driven with perturbed chunk scripts against a predictor written from the statement; directory contents compared byte for byte',
    text=('192k scripts per quick run: snapshots with 0-3 external files and streamed snapshots are split by the real sender code; drop / swap / duplicate / interleave (two senders, two indexes) / corrupt / restart / wrong deployment id or version / removed replica / path escape / ticks anywhere; '
          'the receiver must finalize iff the accepted chunks form the complete valid sequence, notify exactly once, produce byte-identical files, leave no temporary directory after the timeout, and never create a file outside the snapshot directory.'),
    note='no network in this check (TCP framing is C13); the parallel feed variant is not built with -race'),
- 'C16': dict(engine='rsmcheck', category='fault_enumeration', design='DESIGN.md section 4 C16',
+ 'C16': dict(engine='rsmcheck+clusterrun', category='fault_enumeration', design='DESIGN.md section 4 C16',
    technique='fault enumeration at run time: power loss at every file-system operation of the real snapshotter sequences (save+commit, receive+record+flag removal, shrink, compact, racing local save / incoming snapshot) followed by start-up cleanup and a directory / record / load oracle',
    text=('For every operation k of every sequence: crash, ResetToSyncedState, reopen log store, processOrphans; then only complete snapshot directories remain, the recorded snapshot exists and validates, no temporary or flagged directory is left, the record never goes backwards, Load reproduces the saved state. '
          'The real Pebble log store runs on the same crash file system so that record-versus-directory ordering is real.'),
-   note='white-box level (snapshotter + SSEnv + log store); restart of whole NodeHosts after such crashes is exercised by the E2 chaos workload (restart failures are reported there)'),
- 'C13': dict(engine='codeccheck', category='exploration', design='DESIGN.md section 4 C13',
+   note='white-box level (snapshotter + SSEnv + log store); E2 importer stage (imported / shrunk clauses at node level): after an import the repaired hosts lose power at their first SaveRaftState, right after the first start and after a second restart, and must come back with the exported state. ' + E2_NOTE),
+ 'C13': dict(engine='codeccheck+rsmcheck', category='exploration', design='DESIGN.md section 4 C13',
    technique='runtime monitoring of the real codecs on structure-aware generated values (boundary sets), canary-guarded MarshalTo buffers, and corrupted/truncated real TCP frames fed to the real reader',
    text=('About 1M generated values per quick run over every persisted/wire type: decode(encode(v)) == v up to listed normalisations, encoded length <= Size()/SizeUpperLimit(), MarshalTo never writes outside the advertised size (canaries), '
-         'payload codec identity for both compression settings; real frames with every single-bit flip of magic+header, sampled payload flips/bursts and truncations are rejected or delivered intact.'),
+         'payload codec identity for both compression settings; real frames with every single-bit flip of magic+header, sampled payload flips/bursts and truncations are rejected or delivered intact. rsmcheck/payload: the decode step of the apply path (per-entry and batched) for plain, encoded and Snappy-encoded entries - the command bytes reaching the user state machine equal the proposed payload.'),
    note='input space sampled around the stated boundaries, not enumerated; CRC32 detects injected damage classes by construction (bursts <= 32 bits)'),
  'C17': dict(engine='raftsim+clusterrun+compcheck', category='exploration', design='DESIGN.md section 4 C17',
    technique='runtime monitoring of bounded progress in logical ticks: after a seeded fault prefix a fair schedule must reach leader + proposal + read + membership change + snapshot + catch-up within 60 election timeouts, confirmed under three re-seeded fair phases',
    text=('Bounded restatement of liveness (a finite run cannot decide "eventually"): after every explored fault prefix (loss, partitions, crashes, restarts, membership changes, transfers) the fair phase must converge within 60 election timeouts of logical ticks; '
          'a miss counts only if three re-seeded fair phases from the same prefix all miss and every running replica operates under a membership with a running majority. '
-         'E2 progress stage (real NodeHosts, PreVote/CheckQuorum/Quiesce matrix, non-voting and witness members): fault prefix, a no-quorum probe (requests must end, not hang), then a fault-free period in which a leader, completion of proposals / reads through every replica / a membership change / a snapshot request, and catch-up of every reachable replica are required within bounds counted in ticks processed per replica (NodeTick hook) and dragonboat tick-based deadlines; a directed prefix crashes the leader of witness-dependent shards between send and persist. '
+         'E2 progress stage (real NodeHosts, PreVote/CheckQuorum/Quiesce matrix, non-voting and witness members): fault prefix, a no-quorum probe (requests must end, not hang), then a fault-free period in which a leader, completion of proposals / reads through every replica / a membership change / a snapshot request, and catch-up of every reachable replica are required within bounds counted in ticks processed per replica (NodeTick hook) and dragonboat tick-based deadlines; directed prefixes: the leader of witness-dependent shards loses power between send and persist; a quiescent shard loses its leader and is then only asked to make proposals; a replica streams a snapshot and must still save / recover snapshots afterwards; transport send queues give up idle connections after 300-900 ms. '
          'compcheck/msgqueue: the real server.MessageQueue against a reference model (accepted = delivered exactly once, delayed SnapshotStatus neither early nor lost), sequential and concurrent under the race detector.'),
    note=E1_NOTE + '; bounded progress, not liveness; wall clocks are watchdogs only (firing = inconclusive); rate limiting is not driven. ' + E2_NOTE),
  'C18': dict(engine='raftsim+clusterrun', category='exploration', design='DESIGN.md section 4 C18',
@@ -125,7 +125,7 @@ CLAIMS = {
  'C20': dict(engine='clusterrun', category='exploration', design='DESIGN.md section 4 C20',
    technique='runtime monitoring of the whole repair procedure on real NodeHosts: export, stop, invalid imports (refusal + unchanged file tree hash), valid import on every listed host, restart, then membership / state / leader / new proposal checks; corrupted exports must be refused or load exactly the exported state',
    text=('PRNG-chosen history, export point, store, state machine kind and new member list (subset of old members, old + entirely new ids on spare hosts, single member), optional removed and non-voting members before the export; '
-         'six kinds of invalid request are tried before the valid one; after the restart every listed replica must hold exactly the exported state, report exactly the given members with the unlisted old ones removed, elect a leader and complete a proposal.'),
+         'six kinds of invalid request are tried before the valid one; after the restart every listed replica must hold exactly the exported state, report exactly the given members with the unlisted old ones removed, elect a leader and complete a proposal; then the repaired replicas are restarted again (gracefully, after a power loss, and - in other cases - crashed at their first SaveRaftState) and must still hold the exported state. An optional witness member before the export must be refused as a regular member and end up removed.'),
    note=E2_NOTE + '; the exported state is reconstructed from the apply records of the exporting replica up to the returned index'),
 }
 
@@ -169,10 +169,10 @@ def main():
             'add_only': True,
         },
         'engines': [
-            {'name': 'raftsim', 'path': 'harness/raftsim, harness/cmd/raftsim', 'serves_properties': ['C01', 'C02', 'C03', 'C06', 'C07', 'C17', 'C18'], 'kind_free_text': 'E1: deterministic single-goroutine simulation of a shard of real raft.Peer + LogReader + rsm.StateMachine replicas with global-view monitors'},
+            {'name': 'raftsim', 'path': 'harness/raftsim, harness/cmd/raftsim', 'serves_properties': ['C01', 'C02', 'C03', 'C04', 'C06', 'C07', 'C17', 'C18'], 'kind_free_text': 'E1: deterministic single-goroutine simulation of a shard of real raft.Peer + LogReader + rsm.StateMachine replicas with global-view monitors'},
             {'name': 'codeccheck', 'path': 'harness/cmd/codeccheck', 'serves_properties': ['C13'], 'kind_free_text': 'E4: codec round-trip / size-bound / frame corruption monitor'},
-            {'name': 'clusterrun', 'path': 'harness/cluster, harness/cmd/clusterrun', 'serves_properties': ['C01', 'C02', 'C04', 'C05', 'C08', 'C11', 'C12', 'C17', 'C18', 'C20'], 'kind_free_text': 'E2: real NodeHosts in-process, fault injecting transport, strict in-memory FS with power-loss crashes, instrumented state machines, request watchers'},
-            {'name': 'rsmcheck', 'path': 'harness/cmd/rsmcheck', 'serves_properties': ['C05', 'C07', 'C08', 'C16'], 'kind_free_text': 'E5: real rsm.StateMachine / snapshotter driven with synthetic streams, reference models, twins, crash enumeration'},
+            {'name': 'clusterrun', 'path': 'harness/cluster, harness/cmd/clusterrun', 'serves_properties': ['C01', 'C02', 'C04', 'C05', 'C06', 'C08', 'C11', 'C12', 'C16', 'C17', 'C18', 'C20'], 'kind_free_text': 'E2: real NodeHosts in-process, fault injecting transport, strict in-memory FS with power-loss crashes, instrumented state machines, request watchers'},
+            {'name': 'rsmcheck', 'path': 'harness/cmd/rsmcheck', 'serves_properties': ['C05', 'C07', 'C08', 'C13', 'C16'], 'kind_free_text': 'E5: real rsm.StateMachine / snapshotter driven with synthetic streams, reference models, twins, crash enumeration'},
             {'name': 'storecheck', 'path': 'harness/cmd/storecheck', 'serves_properties': ['C04', 'C09', 'C10'], 'kind_free_text': 'E3: real ILogDB implementations against a reference model, crash and error injection'},
             {'name': 'snapcheck', 'path': 'harness/cmd/snapcheck', 'serves_properties': ['C14', 'C15'], 'kind_free_text': 'E4: snapshot file reader/writer/validator and chunk receiver monitors'},
             {'name': 'compcheck', 'path': 'harness/cmd/compcheck', 'serves_properties': ['C17'], 'kind_free_text': 'component monitors: server.MessageQueue against a reference delivery model'},
